@@ -2,6 +2,7 @@
 Machines: Ops/Groups.v on the runner Ops/MultiWin.v (hands observables downstream, ref-counted
 release); tie: K2 port-level replay with a window-subscribing logging subscriber (harness/k2w.py);
 oracle: harness/win_table.py (expected content of every window/buffer recomputed from the rule)."""
+import c19_feedback
 import win_table
 
 NAMES = ["group_by", "group_by_until", "partition", "partition_indexed"]
@@ -402,6 +403,9 @@ def run(chk):
     nt = shared_group_scenarios(chk)
     chk.cov["distinct_nontrivial"] += len(nt)
     chk.cov["shared_group_scenarios_nontrivial"] = len(nt)
+    nt = c19_feedback.feedback_scenarios(chk)
+    chk.cov["distinct_nontrivial"] += len(nt)
+    chk.cov["feedback_scenarios_nontrivial"] = len(nt)
     chk.cov["rule"] = ("per operator: seeded key tables (few keys / many keys / falsy keys None 0 False '' () 0.0; 5% "
                        "raising), element mappers, duration mappers (12% raising) x seeded timelines (falsy elements, "
                        "duration observables firing at arbitrary times incl. the same instant as elements, errors while "
@@ -418,7 +422,12 @@ def run(chk):
                        "with group subscribers joining late / after the end (each sees the whole content of its group); "
                        "subject_mapper returning a subject with its own truth value (falsy while it has no observers); "
                        "groups with two subscribers each, the outer subscription disposed early and one subscriber per "
-                       "group leaving (family shared_group); "
+                       "group leaving (family shared_group); re-entrant FEEDBACK (harness/c19_feedback.py: the source "
+                       "is a hand-made hot probe, the handlers of the group / output subscribers and the outer "
+                       "subscriber's on_next push same-key / other-key elements and terminals into it re-entrantly per "
+                       "a seeded reaction table, durations are hot probes fired by the script; depth-first reference: "
+                       "an expired group is not live inside its own on_completed, so a same-key element made there "
+                       "opens a new group); "
                        "coverage only, not judged: durations firing inside their own subscribe call")
     chk.cov["operators_modelled"] = NAMES
     return chk.finish(trusted_extra=[
@@ -435,12 +444,24 @@ def run(chk):
         "the subscriber's own index OR at the element's position in the connected sequence (the statement does not "
         "say which index is meant); the model and the correspondence use the subscriber's own index, as the code does",
         "group_by_until durations that fire inside their own subscribe call are counted, not judged (the statement "
-        "is read for live groups)"])
+        "is read for live groups)",
+        "feedback family: while a group is being announced (inside the outer subscriber's on_next) the driver makes "
+        "no terminal, and elements reaching a group during its own announcement are compared as a multiset (the "
+        "statement does not say whether they come before or after the element that opened the group); the probe is "
+        "a conforming source: nothing is made after a terminal has been started"])
 
 
 def replay(chk, path):
     import json
     d = json.load(open(path))
+    if "feedback_case" in d:
+        diff, got, exp = c19_feedback.check_feedback(d["feedback_case"])
+        print(json.dumps({"case": d["feedback_case"], "difference": diff, "got": repr(got),
+                          "expected": repr(exp[:3])}, default=str))
+        if diff:
+            print(f"VIOLATION property=C19 replay={path}")
+            return 1
+        return 0
     for key, fn in (("shared_group_case", lambda c: (lambda g, e: (g == e, g, e))(run_shared_group(c),
                                                                                   ref_shared_group(c))),
                     ("replay_subject_case", lambda c: check_replay_subject(c)),
